@@ -28,8 +28,9 @@ Definition depletion_steps (rate : Q) (k : nat) : option Z :=
   if Qeqb rate 0 then None else Some (Qtrunc ((100 / rate) * natQ k)).
 
 (* ReservoirPressurePredictor(project_lifetime_yr, timesteps_per_year, initial_pressure_kPa,
-                              overpressure_percentage, depletion_rate) *)
-Definition prod_pressure (life k : nat) (p0 op rate : Q) : res :=
+                              overpressure_percentage, depletion_rate), for a given value of the step-count expression
+   ([None]: 100.0/0 raised) *)
+Definition prod_pressure_with (life k : nat) (p0 op : Q) (steps : option Z) : res :=
   let n := (life * k)%nat in
   if Qeqb op 100 then Vals (repeat p0 n)
   else match n with
@@ -37,13 +38,16 @@ Definition prod_pressure (life k : nat) (p0 op rate : Q) : res :=
        | S r =>
            let pf := p0 * (op / 100) in
            let delta := pf - p0 in
-           match depletion_steps rate k with
+           match steps with
            | None => Err E_ZERODIV                          (* 100.0 / 0 *)
            | Some s =>
                if Z.eqb s 0 then Err E_ZERODIV              (* delta_pressure / 0 *)
                else Vals (pf :: prod_loop pf (delta / inject_Z s) p0 1 r)
            end
        end.
+
+Definition prod_pressure (life k : nat) (p0 op rate : Q) : res :=
+  prod_pressure_with life k p0 op (depletion_steps rate k).
 
 (* InjectionReservoirPressurePredictor(project_lifetime_yr, timesteps_per_year, initial_pressure_kPa, inflation_rate) *)
 Definition inj_pressure (life k : nat) (p0 rate : Q) : res :=
@@ -108,6 +112,13 @@ Definition check_inj_series (tol p0 rate : Q) (k : nat) (l : list Q) : bool :=
 Definition run_prod_pressure (a : list Q) : res :=
   match a with
   | [life; k; p0; op; rate] => prod_pressure (qnat life) (qnat k) p0 op rate
+  | _ => Err E_ARGS
+  end.
+(* [life; k; p0; op; steps]: the step count as the code's float expression evaluated it (inputs on which float and
+   exact truncation differ) *)
+Definition run_prod_pressure_steps (a : list Q) : res :=
+  match a with
+  | [life; k; p0; op; s] => prod_pressure_with (qnat life) (qnat k) p0 op (Some (qZ s))
   | _ => Err E_ARGS
   end.
 (* [life; k; p0; rate] *)
